@@ -97,3 +97,60 @@ func Harness_C04_RawRecordTo() {
 	verif.ObserveBool("err", err != nil)
 	verif.Cover("returned")
 }
+
+type c04NamedRaw map[string]interface{}
+
+// Harness_C04_RawRecordAny: a raw record decoded through the untyped-value
+// reader from a solver-chosen Go value - maps of every shape (the expected
+// map[string]interface{}, a named map type, maps with other element or key
+// types, nil maps, pointers to maps), another RawRecord, and non-maps: the
+// call returns, it never panics, and a map[string]interface{} is accepted.
+func Harness_C04_RawRecordAny() {
+	var v interface{}
+	k := verif.Choose(14)
+	switch k {
+	case 0:
+		v = map[string]interface{}{"a": "b", "n": int32(1)}
+	case 1:
+		v = map[string]string{"a": "b"}
+	case 2:
+		v = map[string]int32{"a": 1}
+	case 3:
+		v = map[int]interface{}{1: "x"}
+	case 4:
+		m := map[string]string{"a": "b"}
+		v = &m
+	case 5:
+		m := map[string]interface{}{"a": "b"}
+		v = &m
+	case 6:
+		v = RawRecord{"a": "b"}
+	case 7:
+		v = &RawRecord{"a": "b"}
+	case 8:
+		v = c04NamedRaw{"a": "b"}
+	case 9:
+		v = (map[string]interface{})(nil)
+	case 10:
+		v = (map[string]string)(nil)
+	case 11:
+		v = nil
+	case 12:
+		v = "str"
+	default:
+		v = []interface{}{map[string]string{"a": "b"}}
+	}
+	if verif.Bool() {
+		v = map[string]interface{}{"outer": v}
+		k = 0
+	}
+	var r RawRecord
+	var err error
+	p, msg := verif.Try(func() { err = r.UnmarshalRestLi(restlicodec.NewInterfaceReader(v)) })
+	verif.Assert(!p, "RawRecord.UnmarshalRestLi panicked on an untyped value: "+msg)
+	if k == 0 {
+		verif.Assert(err == nil, "a map[string]interface{} was not accepted as a raw record")
+	}
+	verif.ObserveBool("err", err != nil)
+	verif.Cover("returned")
+}
